@@ -145,7 +145,7 @@ def rule_gate(ctx, R):
         if not is_priv_site(ctx, t, cache):
             continue
         cal = callee(t)
-        short = cal.split("::")[-1] if not t["clos"] or cal.split("::")[-1] != "with_connection" else "with_connection:" + t["clos"][0].split("::")[-1]
+        short = shared.site_name(ctx, t)
         npriv += 1
         in_refuse = i in refuse
         dom = cfg.dominates(b, a, i)
